@@ -46,6 +46,8 @@ class Field:
             - aligned: a variant of at.
 
             '''
+    holds_no_value = False
+
     def __init__(self):
         self.is_fixed = False
         self.struct_code = None
@@ -1152,6 +1154,8 @@ class Bkpt(Field):
 
 
 class Em(Field):
+    holds_no_value = True
+
     def __init__(self):
         Field.__init__(self)
 
